@@ -2383,6 +2383,14 @@ private:
                 }
             }
             --my_tries;
+            // A decrement that arrived while this put was in flight may have made room again:
+            // pull from the predecessors that were rejected in the meantime (as forward_task() does)
+            if ( check_conditions() && is_graph_active(this->my_graph) ) {
+                typedef forward_task_bypass<limiter_node<T, DecrementType>> task_type;
+                d1::small_object_allocator allocator{};
+                graph_task* ftask = allocator.new_object<task_type>( my_graph, allocator, *this );
+                spawn_in_graph_arena(graph_reference(), *ftask);
+            }
         }
         return rtask;
     }
